@@ -2201,7 +2201,7 @@ def _to_liquid_string(val: Any, *, auto_escape: bool = False) -> str:
     elif val is None:
         val = ""
     elif isinstance(val, range):
-        val = f"{val.start}..{val.stop - 1}"
+        val = f"{_str(val.start)}..{_str(val.stop - 1)}"
     elif isinstance(val, Sequence):
         if auto_escape:
             val = Markup("").join(
@@ -2214,10 +2214,18 @@ def _to_liquid_string(val: Any, *, auto_escape: bool = False) -> str:
     elif isinstance(val, (Empty, Blank)):
         val = ""
     else:
-        val = str(val)
+        val = _str(val)
 
     if auto_escape:
         val = escape(val)
 
     assert isinstance(val, str)
     return val
+
+
+def _str(val: object) -> str:
+    try:
+        return str(val)
+    except ValueError as err:
+        # The interpreter refuses to convert integers with very many digits.
+        raise LiquidValueError(str(err), token=None) from err
